@@ -868,7 +868,7 @@ func verifC07Gen(r *verifutil.Rand, i int, thorough bool) []string {
 func TestVerifC07(t *testing.T) {
 	gin.SetMode(gin.ReleaseMode)
 	verifutil.Main(t, &verifutil.Harness{
-		ID: "C07", Exec: verifC07Exec, Gen: verifC07Gen, Quick: 200, Thorough: 8000,
+		ID: "C07", Exec: verifC07Exec, Gen: verifC07Gen, Quick: 160, Thorough: 8000,
 		Class: func(op, impl string) string {
 			f := strings.Fields(op)
 			switch f[0] {
